@@ -1,6 +1,7 @@
 package h
 
 import (
+	"strings"
 	"encoding/json"
 	"fmt"
 	"sort"
@@ -35,7 +36,7 @@ func (C09Checker) Check(s *Step) []*Violation {
 		return nil
 	}
 	var vs []*Violation
-	role := c09Role(s)
+	role := c09Role(s) + c09RepairTag(s)
 	add := func(clause, detail string) {
 		vs = append(vs, &Violation{Clause: clause, Sig: clause + ":" + role, Detail: detail})
 	}
@@ -92,6 +93,48 @@ func (C09Checker) Check(s *Step) []*Violation {
 		}
 	}
 	return vs
+}
+
+// c09RepairTag tells a redundant re-send from a repair: if everything the device received during the re-submission
+// differs from what it held before (a written value that was absent or different, a delete that removes something),
+// the device had not converged before the probe (an upstream defect of another property) and the re-submission
+// repairs it. The tag names the schema paths concerned; it is empty if anything sent was redundant.
+func c09RepairTag(s *Step) string {
+	if s.Pre == nil || s.W == nil {
+		return ""
+	}
+	calls := s.W.Dev.Calls
+	paths := map[string]bool{}
+	for i := len(calls) - s.Out.DevCalls; i >= 0 && i < len(calls); i++ {
+		c := calls[i]
+		for p, v := range c.Updates {
+			if pv, ok := s.Pre.Device[p]; ok && pv == v {
+				return ""
+			}
+			paths[SchemaClass(p)] = true
+		}
+		for _, d := range c.Deletes {
+			hit := false
+			for p := range s.Pre.Device {
+				if p == d || strings.HasPrefix(p, d+"/") || strings.HasPrefix(p, d+"[") {
+					hit = true
+					paths[SchemaClass(p)] = true
+				}
+			}
+			if !hit {
+				return ""
+			}
+		}
+	}
+	if len(paths) == 0 {
+		return ""
+	}
+	ks := make([]string, 0, len(paths))
+	for k := range paths {
+		ks = append(ks, k)
+	}
+	sort.Strings(ks)
+	return ":repairs-divergence:" + strings.Join(ks, "+")
 }
 
 // c09Role classifies the re-submitted intents: ruling, shadowed or mixed (used in the signature).
